@@ -59,6 +59,7 @@ void Exec::op_talloc(const Op& op) {
     if (!p) { count(C_NULLS); if (!allow_null && j.n <= MUST_SUCCEED_MAX && !j.use_arena) fail_now("null", "op#%ld helper thread: alloc(%zu) returned NULL", opi, j.n); continue; }
     if (m.slots[s].live) { mi_free(p); continue; }
     bool z = (j.f == "zalloc");
+    if (j.a > 16 && !z && !j.use_arena) check_alignment(p, j.n, j.a, 0, "talloc");
     model_add(s, p, j.n, j.a > 16 ? j.a : 1, 0, j.use_arena ? -2 - j.arena : (spi >= 0 ? -20 - spi : -1), z, "talloc"); m.slots[s].foreign = true;
     if (z) check_zeroed(p, 0, j.n, "talloc-zalloc");
     model_fill(s);
